@@ -1,5 +1,5 @@
 import Driver.Common
-import AranyaV.Model.Disk
+import AranyaV.Model.DiskFault
 /-!
 Driver for the disk / two-slot root protocol model (C15).
 
@@ -98,6 +98,7 @@ def showOp : Op → String
   | .fdatasync => "ds"
   | .fsync => "fs"
   | .falloc off len => s!"fa {off} {len}"
+  | .failed => "!"
 
 def showOps (ops : List Op) : String :=
   if ops.isEmpty then "-" else ";".intercalate (ops.map showOp)
@@ -149,6 +150,25 @@ def step (s : DState) (toks : List String) : DState × String :=
     | none => (s, "bad-op")
   | ["commit", h, f] => match Driver.hex? h, f.toNat? with
     | some heads, some fact => call s (s.w.step L ck (.commit heads [] fact))
+    | _, _ => (s, "bad-op")
+  | ["append", h, "f", i, kp] => match Driver.hex? h, i.toNat?, kp.toNat? with
+    | some bytes, some i, some kp =>
+      let r := s.w.stepF L ck (.append bytes []) ⟨i, kp⟩
+      let (s', o) := call s (r.1, r.2.1)
+      (s', o ++ (if r.2.2 then " ok" else " err"))
+    | _, _, _ => (s, "bad-op")
+  | ["commit", h, f, "f", i, kp] => match Driver.hex? h, f.toNat?, i.toNat?, kp.toNat? with
+    | some heads, some fact, some i, some kp =>
+      let r := s.w.stepF L ck (.commit heads [] fact) ⟨i, kp⟩
+      let (s', o) := call s (r.1, r.2.1)
+      (s', o ++ (if r.2.2 then " ok" else " err"))
+    | _, _, _, _ => (s, "bad-op")
+  | ["state"] =>
+    (s, s!"{s.w.root.gen} {showOpt s.w.root.heads} {showOpt s.w.root.fact} {s.w.root.free} {s.w.root.sum} {s.w.nextRoot} {s.w.allocEnd} {if s.w.dataDirty then 1 else 0}")
+  | ["crashsz", k, chi, sz] => match k.toNat?, sz.toNat? with
+    | some k, some sz => match crashImg s k chi with
+      | some img => (s, verdict (Writer.openSz L ck img sz))
+      | none => (s, "bad-op")
     | _, _ => (s, "bad-op")
   | ["crash", k, chi] => match k.toNat? with
     | some k => match crashImg s k chi with
